@@ -265,6 +265,25 @@ fn gen_history(r: &mut Rng, ntargets: usize, nfakes: usize, thorough: bool) -> V
     ops
 }
 
+/// directed histories: every ordered triple of installations on ONE function inside one lifetime, drawn
+/// from {force true, force false, fake A (near), fake B (far)} -- a cache keyed on "the same request as
+/// last time" is wrong exactly on a-b-a patterns
+fn directed_history(idx: usize, t: usize) -> Vec<Op> {
+    let kinds = |k: usize| match k {
+        0 => Op::Bool { t, v: true },
+        1 => Op::Bool { t, v: false },
+        2 => Op::Exec { kind: 0, t, f: 0 },
+        _ => Op::Exec { kind: 0, t, f: 2 },
+    };
+    let mut ops = vec![Op::New];
+    ops.push(kinds(idx % 4));
+    ops.push(kinds(idx / 4 % 4));
+    ops.push(kinds(idx / 16 % 4));
+    ops.push(if idx % 5 == 0 { Op::DropByPanic } else { Op::Drop });
+    ops
+}
+pub const DIRECTED: u64 = 64;
+
 const SIG: &str = "fn() -> u32";
 const SIGB: &str = "fn() -> bool";
 
@@ -517,11 +536,12 @@ pub fn run(a: &Args, out: &mut impl Write) {
     silence_panics();
     let mut r = Rng::new(a.seed);
     let bases: [usize; 5] = [0x10000, 0x4000_0000, 0x10_0000_0000, 0x5555_0000_0000, 0x7ffd_0000_0000];
-    for h in 0..a.n {
+    for h in 0..a.n + DIRECTED {
         if too_many_timeouts() {
             break;
         }
         let seed_h = r.next();
+        let directed = if h >= a.n { Some((h - a.n) as usize) } else { None };
         let base = bases[(h % bases.len() as u64) as usize];
         let thorough = a.tier_thorough;
         let (s, code, sig) = in_child(move |w| {
@@ -559,7 +579,10 @@ pub fn run(a: &Args, out: &mut impl Write) {
                 targets.retain(|t| seen.insert(t.0));
             }
             let fakes: Vec<(usize, u32)> = vec![near.funcs[0], near.funcs[7], far.funcs[1], far.funcs[200], near.funcs[255]];
-            let ops = gen_history(&mut r, targets.len(), fakes.len(), thorough);
+            let ops = match directed {
+                Some(i) => directed_history(i, 3 + i % 5),
+                None => gen_history(&mut r, targets.len(), fakes.len(), thorough),
+            };
             let n = targets.len();
             let mut arenas = vec![lay];
             // "library" code exactly one search range below the page-aligned target: the first
